@@ -13,6 +13,10 @@ from .common import EXIT_HARNESS, EXIT_OK, EXIT_VIOLATION
 REGISTRY = {
     "C01": ("A", "vf.harness.C01"),
     "C04": ("A", "vf.harness.C04"),
+    "C07": ("A", "vf.harness.C07"),
+    "C08": ("A", "vf.harness.C08"),
+    "C09": ("A", "vf.harness.C09"),
+    "C12": ("A", "vf.harness.C12"),
 }
 
 LEVEL = {}
